@@ -50,3 +50,15 @@ MUTANTS += [
     dict(id="c02-any-balance", props=["C02"], file="constructeddata.py", old="        # make sure everything balances\n        if lvl > 0:\n            raise DecodingError(\"mismatched open/close tags\")", new="        # make sure everything balances\n        if lvl > 1:\n            raise DecodingError(\"mismatched open/close tags\")"),
     dict(id="c02-len-253", props=["C02", "C01"], file="primitivedata.py", old="            if (self.tagLVT <= 253):", new="            if (self.tagLVT < 253):"),
 ]
+
+MUTANTS += [
+    # ---- C01
+    dict(id="c01-integer-sign", props=["C01"], file="primitivedata.py", old="                if (data[1] >= 128):\n                    break\n                del data[0]", new="                if (data[1] > 128):\n                    break\n                del data[0]"),
+    dict(id="c01-bitstring-unused", props=["C01"], file="primitivedata.py", old="        unused = used and (8 - used) or 0", new="        unused = used and used or 0"),
+    dict(id="c01-oid-shift", props=["C01"], file="primitivedata.py", old="        objType = (value >> 22) & 0x03FF", new="        objType = (value >> 22) & 0x01FF"),
+    dict(id="c01-real-double", props=["C01"], file="primitivedata.py", old="struct.pack('>f',self.value)", new="struct.pack('>d',self.value)"),
+    dict(id="c01-bool-ctx", props=["C01"], file="primitivedata.py", old="            return ContextTag(context, bytearray([self.tagLVT]))", new="            return ContextTag(context, bytearray([]))"),
+    dict(id="c01-unsigned-strip", props=["C01"], file="primitivedata.py", old="        while (len(data) > 1) and (data[0] == 0):\n            del data[0]\n\n        # encode the tag\n        tag.set_app_data(Tag.unsignedAppTag, data)", new="        while (len(data) > 2) and (data[0] == 0):\n            del data[0]\n\n        # encode the tag\n        tag.set_app_data(Tag.unsignedAppTag, data)"),
+    dict(id="c01-enum-xlate", props=["C01"], file="primitivedata.py", old="        rslt = self._xlate_table.get(rslt, rslt)\n\n        # save the result\n        self.value = rslt", new="        rslt = self._xlate_table.get(rslt & 0xFFFF, rslt)\n\n        # save the result\n        self.value = rslt"),
+    dict(id="c01-date-tuple", props=["C01"], file="primitivedata.py", old="        tag.set_app_data(Tag.dateAppTag, bytearray(self.value))", new="        tag.set_app_data(Tag.dateAppTag, bytearray(v & 0x7F if i == 3 else v for i, v in enumerate(self.value)))"),
+]
